@@ -198,6 +198,7 @@ class Exec:
         self.objlist_fields = {}
         self.alias_paths = {}
         self.old_stack = []
+        self.effects = []
         self.root_env = {}
         self.pending_eager = []
 
@@ -325,6 +326,9 @@ class Exec:
             inner = _split_top(typ[typ.index("[") + 1:-1])
             items = [self.mk(t, f"{name}.{i}") for i, t in enumerate(inner)]
             return self.alloc(HTuple(items, is_tuple=typ.startswith("tuple[")))
+        m = re.fullmatch(r"alist\[(int|str|val)\]", typ)
+        if m:
+            return self.new_alist(m.group(1), name, symbolic=True)
         m = re.fullmatch(r"(objlist|pairlist)\[(\w+)\]", typ)
         if m:
             cn = m.group(2)
@@ -436,6 +440,21 @@ class Exec:
         raise OutsideSubset(f"attribute {attr} of {type(obj).__name__}")
 
     SORTS = {"int": lambda: z3.IntSort(), "bool": lambda: z3.BoolSort(), "str": lambda: z3.StringSort(), "real": lambda: z3.RealSort()}
+
+    def new_alist(self, elem, name, symbolic):
+        """python list of scalars in array encoding (length + Array Int -> elem): friendlier to quantified invariants than SMT sequences"""
+        ln = z3.Int(name + "!len") if symbolic else z3.IntVal(0)
+        if symbolic:
+            self.inputs[name + "!len"] = ln
+            self.pc.append(ln >= 0)
+        lst = HObjList("$" + elem, None, ln, name)
+        srt = self.SORTS[elem]() if elem in self.SORTS else Val
+        nm = f"{name}[*].v"
+        arr = z3.Const(nm if symbolic else fresh_name(nm), z3.ArraySort(z3.IntSort(), srt))
+        if symbolic:
+            self.inputs[nm] = arr
+        lst.fields["v"] = (elem, arr)
+        return self.alloc(lst)
 
     def elem_class_names(self, lst, er=None):
         cn = er.clsname if (er is not None and er.clsname) else None
@@ -628,7 +647,7 @@ class Exec:
             if isinstance(o, HObjList):
                 return o.length > 0
             if isinstance(o, HDict):
-                raise OutsideSubset("truthiness of dict")
+                return ops.dict_nonempty(o.dom)
             return z3.BoolVal(True)
         if isinstance(v, (ClassRef, EnumVal, tuple, ElemRef)):
             return z3.BoolVal(True)
@@ -891,6 +910,11 @@ class Exec:
         raise OutsideSubset(f"== between {a} and {b}")
 
     def contains(self, container, item):
+        if isinstance(container, ElemRef) and container.part == "obj" and self.const_str(item) is not None:
+            has = self.elem_get(container, "has_" + self.const_str(item))
+            if has is not None:
+                return has.term
+            return z3.BoolVal(self.elem_get(container, self.const_str(item)) is not None)
         if isinstance(container, SV):
             if container.kind in ("str", "val") and isinstance(item, SV) and item.kind in ("str", "val"):
                 if container.kind == "val":
@@ -928,7 +952,9 @@ class Exec:
                 return z3.BoolVal(k in o.items)
             if isinstance(o, HDict):
                 if isinstance(item, SV) and item.kind in ("str", "val"):
-                    return z3.And(ops.tag_is(item, "str"), z3.Select(o.dom, ops.as_str(item)))
+                    pres = z3.And(ops.tag_is(item, "str"), z3.Select(o.dom, ops.as_str(item)))
+                    self.pc.append(z3.Implies(pres, ops.dict_nonempty(o.dom)))     # a dict holding a key is truthy
+                    return pres
                 return z3.BoolVal(False)
         raise OutsideSubset("in")
 
@@ -1022,6 +1048,20 @@ class Exec:
         return z3.If(i < 0, i + length, i)
 
     def index(self, base, idx):
+        if isinstance(base, ElemRef) and base.part == "obj" and self.const_str(idx) is not None:
+            # an element of a list of JSON records: e["key"]
+            k = self.const_str(idx)
+            has = self.elem_get(base, "has_" + k)
+            if has is not None:
+                self.maybe_raise(z3.Not(has.term), "KeyError", k)
+            v = self.elem_get(base, k)
+            if v is None:
+                raise OutsideSubset(f"record key {k} has no declared type")
+            return v
+        if isinstance(base, ElemRef) and base.part == "obj" and isinstance(idx, SV) and idx.kind == "int" and z3.is_int_value(z3.simplify(idx.term)):
+            v = self.elem_get(base, f"t{z3.simplify(idx.term).as_long()}")
+            if v is not None:
+                return v     # element of a list of tuples: e[0], e[1] are the declared fields t0, t1
         if isinstance(base, ElemRef) and base.part == "pair":
             k = z3.simplify(idx.term) if isinstance(idx, SV) and idx.kind == "int" else None
             if k is None or not z3.is_int_value(k):
@@ -1039,6 +1079,10 @@ class Exec:
             self.maybe_raise(z3.Or(i >= o.length, i < -o.length), "IndexError", "list index")
             # specifications index from the front only: no negative-index normalisation (keeps array reads usable as triggers)
             ni = i if self.spec_mode else self.norm_index(idx, o.length)
+            if o.clsname.startswith("$"):
+                typ, arr = o.fields["v"]
+                t = z3.Select(arr, ni)
+                return SV(typ, t) if typ in self.SORTS else ops.from_val(t)
             return ElemRef(base.oid, ni, "pair" if o.pair else "obj")
         if isinstance(base, Ref):
             o = self.heap[base.oid]
@@ -1137,6 +1181,15 @@ class Exec:
             fname, rk = DROPPED.EXTERNAL_PURE[dn]
             vals = [self.eval(a) for a in n.args]
             return self.pure_external(fname, rk, vals)
+        if dn == "json.dump" and not self.spec_mode:
+            payload = self.eval(n.args[0])
+            fh = self.eval(n.args[1])
+            path = self.heap[fh.oid].fields.get("path") if isinstance(fh, Ref) and isinstance(self.heap[fh.oid], HObj) else None
+            if isinstance(payload, Ref):
+                snap = self.heap[payload.oid].clone()
+                payload = self.alloc(snap)
+            self.effects.append(("json.dump", path, payload))
+            return NONE
         if dn in DROPPED.EXTERNAL_EFFECT and not self.spec_mode:
             for a in n.args:
                 self.eval_for_effect(a)
@@ -1416,6 +1469,49 @@ class Exec:
         if isinstance(recv, SV):
             return self.str_method(recv, name, args, kw)
         o = self.heap[recv.oid]
+        if isinstance(o, HObjList) and name == "append" and o.clsname.startswith("$"):
+            typ, arr = o.fields["v"]
+            v = self.as_scalar(args[0])
+            if typ in self.SORTS:
+                if v.kind == typ:
+                    term = v.term
+                elif v.kind == "val" and typ == "str":
+                    if self.feasible(z3.Not(ops.tag_is(v, "str"))):
+                        raise OutsideSubset("value appended to alist[str] may not be a string")
+                    term = ops.as_str(v)
+                elif v.kind in ("val", "bool") and typ == "int":
+                    term = ops.as_int(v)
+                else:
+                    raise OutsideSubset(f"append {v.kind} to alist[{typ}]")
+            else:
+                term = ops.to_val(v)
+            o.fields["v"] = (typ, z3.Store(arr, o.length, term))
+            o.length = o.length + 1
+            return NONE
+        if isinstance(o, HObjList) and name == "append":
+            item = args[0]
+            src = self.heap[item.oid] if isinstance(item, Ref) else None
+            for k, (typ, arr) in list(o.fields.items()):
+                val = None
+                if isinstance(src, HRec):
+                    if k in src.items:
+                        val = src.items[k]
+                    elif k.startswith("has_"):
+                        val = B(k[4:] in src.items)
+                if isinstance(val, SV):
+                    if typ in self.SORTS and val.kind == typ:
+                        term = val.term
+                    elif typ not in self.SORTS:
+                        term = ops.to_val(val)
+                    else:
+                        term = None
+                    if term is not None:
+                        o.fields[k] = (typ, z3.Store(arr, o.length, term))
+                        continue
+                fresh = z3.Const(fresh_name(f"{o.path}.new.{k}"), arr.sort().range())
+                o.fields[k] = (typ, z3.Store(arr, o.length, fresh))
+            o.length = o.length + 1
+            return NONE
         if isinstance(o, HList):
             return self.list_method(recv, o, name, args)
         if isinstance(o, HTuple):
@@ -1725,6 +1821,21 @@ class Exec:
             if nm in ("fs_exists", "fs_isfile", "fs_isdir", "path_join", "path_basename", "path_dirname"):
                 vals = [self.eval(a) for a in n.args]
                 return self.pure_external(nm, "bool" if nm.startswith("fs_") else "str", vals)
+            if nm == "effects_count":
+                kind = n.args[0].value
+                return I(len([e for e in self.effects if e[0] == kind]))
+            if nm == "effect_payload":
+                kind, k = n.args[0].value, n.args[1].value
+                es = [e for e in self.effects if e[0] == kind]
+                if k >= len(es):
+                    raise OutsideSubset("no such effect on this path: guard the clause with effects_count")
+                return es[k][2]
+            if nm == "effect_path":
+                kind, k = n.args[0].value, n.args[1].value
+                es = [e for e in self.effects if e[0] == kind]
+                if k >= len(es):
+                    raise OutsideSubset("no such effect on this path")
+                return es[k][1]
             if nm == "iota":
                 k = ops.as_int(self.eval(n.args[0]))
                 return self.alloc(HList("int", ops.iota(k)))
@@ -1916,8 +2027,13 @@ class Exec:
     def s_Assign(self, s):
         if (isinstance(s.value, ast.List) and not s.value.elts and len(s.targets) == 1 and isinstance(s.targets[0], ast.Name)
                 and s.targets[0].id in self.contract.list_literals and not self.frames):
-            m = re.fullmatch(r"list\[(int|str|val)\]", self.contract.list_literals[s.targets[0].id])
-            self.locals[s.targets[0].id] = self.alloc(HList(m.group(1), z3.Empty(ops.seq_sort(m.group(1)))))
+            lt = self.contract.list_literals[s.targets[0].id]
+            m = re.fullmatch(r"list\[(int|str|val)\]", lt)
+            if m:
+                self.locals[s.targets[0].id] = self.alloc(HList(m.group(1), z3.Empty(ops.seq_sort(m.group(1)))))
+            else:
+                m = re.fullmatch(r"alist\[(int|str|val)\]", lt)
+                self.locals[s.targets[0].id] = self.new_alist(m.group(1), fresh_name(s.targets[0].id), symbolic=False)
             return
         v = self.eval(s.value)
         for t in s.targets:
@@ -1976,6 +2092,10 @@ class Exec:
             raise OutsideSubset("assignment target")
 
     def store_index(self, base, idx, v):
+        if isinstance(base, ElemRef) and base.part == "obj" and isinstance(idx, SV) and idx.kind == "int" and z3.is_int_value(z3.simplify(idx.term)):
+            v = self.elem_get(base, f"t{z3.simplify(idx.term).as_long()}")
+            if v is not None:
+                return v     # element of a list of tuples: e[0], e[1] are the declared fields t0, t1
         if isinstance(base, ElemRef) and base.part == "pair":
             k = z3.simplify(idx.term) if isinstance(idx, SV) and idx.kind == "int" else None
             if k is not None and z3.is_int_value(k) and k.as_long() == 1:
@@ -2200,6 +2320,8 @@ class Exec:
             if isinstance(o, HObjList):
                 for k, (typ, arr) in list(o.fields.items()):
                     self.havoc_elem_field(o, k)
+                o.length = z3.Int(fresh_name(label + "!len"))
+                self.pc.append(o.length >= 0)
                 return v
             if isinstance(o, HDict):
                 o.arr = z3.Const(fresh_name(label + "!arr"), o.arr.sort())
@@ -2232,6 +2354,7 @@ class Exec:
             elif isinstance(o, HObjList):
                 for k, (t, arr) in o.fields.items():
                     fp[("arr", oid, k)] = arr
+                fp[("alen", oid)] = o.length
             elif isinstance(o, HRec):
                 for k, v in o.items.items():
                     fp[("rec", oid, k)] = vfp(v)
@@ -2362,7 +2485,11 @@ class Exec:
             self.assign(tgt, I(ops.as_int(cur) + 1))
         if kind == "list":
             o = self.heap[seqref.oid]
-            if isinstance(o, HObjList):
+            if isinstance(o, HObjList) and o.clsname.startswith("$"):
+                typ, arr = o.fields["v"]
+                t = z3.Select(arr, self.locals[idx_name].term)
+                item = SV(typ, t) if typ in self.SORTS else ops.from_val(t)
+            elif isinstance(o, HObjList):
                 item = ElemRef(seqref.oid, self.locals[idx_name].term, "pair" if o.pair else "obj")
             else:
                 item = ops.elem_sv(o.elem, o.seq[self.locals[idx_name].term])
@@ -2408,9 +2535,21 @@ class Exec:
         raise ContinueSig()
 
     def s_With(self, s):
-        hook = getattr(self, "with_hook", None)
-        if hook:
-            return hook(s)
+        # the one context manager the target code uses: `with open(path, mode, ...) as f:`
+        if len(s.items) == 1 and isinstance(s.items[0].context_expr, ast.Call) and isinstance(s.items[0].context_expr.func, ast.Name) \
+                and s.items[0].context_expr.func.id == "open":
+            call = s.items[0].context_expr
+            path = self.eval(call.args[0])
+            mode = self.eval(call.args[1]) if len(call.args) > 1 else S("r")
+            fh = HObj("File", None, fresh_name("file"))
+            fh.fresh = True
+            fh.fields["path"], fh.fields["mode"] = path, mode
+            ref = self.alloc(fh)
+            if s.items[0].optional_vars is not None:
+                self.assign(s.items[0].optional_vars, ref)
+            self.effects.append(("open", path, mode))
+            self.exec_block(s.body)
+            return
         raise OutsideSubset("with")
 
     def s_Delete(self, s):
